@@ -288,3 +288,52 @@ def check_pair(inp, res, err):
 
 RUNTIME["pair_adapters"] = {"gen": gen_pair, "call": call_pair, "check": check_pair,
                             "bounds": "1-3 ranks (sometimes sharing the R1 adapter), 3 adapter types, 5 actions, 1-3 pairs"}
+
+
+# ------------------------------------------------------------------------------ C09: linked adapters
+def gen_linked(rng):
+    front = rng.choice(["ACGTACGT", "TTGGCCAA", "GATCGA"])
+    back = rng.choice(["GATCGATC", "ACGTAC", "CCGGAATT"])
+    body = "".join(rng.choice("ACGT") for _ in range(rng.choice([0, 0, 3, 9, 15])))
+    f = front if rng.random() < 0.7 else ""
+    if f and rng.random() < 0.3:
+        p = rng.randint(0, len(f) - 1)
+        f = f[:p] + rng.choice("ACGT") + f[p + 1:]
+    bk = back[: rng.randint(3, len(back))] if rng.random() < 0.6 else ""
+    lead = "" if rng.random() < 0.6 else "".join(rng.choice("ACGT") for _ in range(rng.randint(1, 5)))
+    return {"front": front, "back": back, "front_anchored": rng.random() < 0.5, "front_required": rng.random() < 0.5,
+            "back_required": rng.random() < 0.5, "read": lead + f + body + bk}
+
+
+def _t(m):
+    return None if m is None else [m.astart, m.astop, m.rstart, m.rstop, m.score, m.errors]
+
+
+def call_linked(inp):
+    from cutadapt.adapters import LinkedAdapter, FrontAdapter, PrefixAdapter, BackAdapter
+    mk_f = (lambda: PrefixAdapter(inp["front"], max_errors=0.2)) if inp["front_anchored"] else (lambda: FrontAdapter(inp["front"], max_errors=0.2, min_overlap=3))
+    mk_b = lambda: BackAdapter(inp["back"], max_errors=0.2, min_overlap=3)
+    la = LinkedAdapter(mk_f(), mk_b(), inp["front_required"], inp["back_required"], name="L")
+    m = la.match_to(inp["read"])
+    f = mk_f().match_to(inp["read"])
+    rest = inp["read"] if f is None else inp["read"][f.rstop:]
+    b = mk_b().match_to(rest)
+    return {"linked": None if m is None else [_t(m.front_match), _t(m.back_match), m.score, m.errors],
+            "front": _t(f), "back_in_rest": _t(b), "rest": rest}
+
+
+def check_linked(inp, res, err):
+    if err:
+        return ["no_raise:" + err]
+    f, b = res["front"], res["back_in_rest"]
+    missing = (f is None and inp["front_required"]) or (b is None and inp["back_required"]) or (f is None and b is None)
+    if missing:
+        return [] if res["linked"] is None else [f"a required part is missing (front {f}, back {b}) but a match is reported: {res['linked']}"]
+    if res["linked"] is None:
+        return [f"all required parts were found (front {f}, back {b} in {res['rest']!r}) but no match is reported"]
+    want = [f, b, (f[4] if f else 0) + (b[4] if b else 0), (f[5] if f else 0) + (b[5] if b else 0)]
+    return [] if res["linked"] == want else [f"linked match {res['linked']}, expected {want} (3' part searched in what the 5' part left: {res['rest']!r})"]
+
+
+RUNTIME["linked"] = {"gen": gen_linked, "call": call_linked, "check": check_linked,
+                     "bounds": "3x3 adapter pairs, anchored or not, all four required/optional combinations, reads <= 40 incl. reads ending with the 5' adapter"}
